@@ -19,7 +19,9 @@ func IsTimeout(err error) bool {
 	if t {
 		return t
 	}
-	if e, ok := err.(net.Error); ok {
+	// unwrap: timeouts usually arrive wrapped (e.g. "reading ...: %w")
+	var e net.Error
+	if errors.As(err, &e) {
 		return e.Timeout()
 	}
 	return false
